@@ -226,7 +226,7 @@ theorem mut_step {E : Engine} (hE : EngineOK E) (hh : MutHyp cfg votes S) {st st
         refine ⟨x.1, hinS x List.mem_cons_self, ?_⟩
         have hx1 := hone x List.mem_cons_self
         simp only [advance, hs0, he1, seatsAdd, List.foldl_cons, List.foldl_nil, seatsAdd1, Nat.zero_add, hx1]
-  | elimination hout =>
+  | elimination _ hout =>
     left
     obtain ⟨retained, hsel, he, htr, he1, he2⟩ := afterElimination_inv hout
     rw [hh.step] at hsel
